@@ -7,6 +7,7 @@ import Driver.CmdC16
 import Driver.CmdC09
 import Driver.CmdC19
 import Driver.CmdC10
+import Driver.CmdC08Key
 /-
   Driver.Extra — per-property command handlers living in their own files (`Driver/CmdCxx.lean`).
   Each returns `none` for commands that are not its own.
@@ -14,4 +15,4 @@ import Driver.CmdC10
 open Lean
 
 def extraHandlers : List (String → Json → Option (Except String Json)) :=
-  [handleC18, handleC17, handleC12, handleC15, handleC16, handleC09, handleC19, handleC10]
+  [handleC18, handleC17, handleC12, handleC15, handleC16, handleC09, handleC19, handleC10, handleC08Key]
